@@ -419,7 +419,11 @@ func targetExpr(fn *ssa.Function) (string, bool) {
 }
 
 func (e *Engine) tryReplay(vc *VC, o *Obligation, fres *FuncResult, repo string, cfg SolverCfg, rfile string, prop string) ReplayResult {
-	fn := e.funcByString(fres.Key)
+	fnKey := fres.Key
+	if i := strings.Index(fnKey, "#"); i >= 0 {
+		fnKey = fnKey[:i]
+	}
+	fn := e.funcByString(fnKey)
 	con := fres.Contract
 	rf := &govcrt.ReplayFile{Property: prop, Function: fres.Key, Obligation: o.Name, Kind: o.Kind, Clause: o.Detail, Case: o.Case,
 		SolverOut: truncate(o.Output, 4000), Solver: o.Solver}
